@@ -49,9 +49,18 @@ class Listener:
         self.trace: List[str] = []
         self.pointer_states = 0
         self.dur_ver = 0
+        self.n_fsync = 0
+        self.fail_fsync: Any = None
+        self.fsync_failed_on: Any = None
+        self.ops_raised: List[str] = []
 
     def before(self, ev: Any) -> None:
-        pass
+        # fault variant: the k-th fsync of the history (file or directory) fails once with EIO
+        if ev.fn == "fsync" and ev.fd not in self.model.fd_dir:  # file-content fsyncs only (see assumptions)
+            self.n_fsync += 1
+            if self.fail_fsync is not None and self.n_fsync == self.fail_fsync:
+                self.fsync_failed_on = ev.label().replace(self.model.root, "")
+                raise OSError(5, "injected: fsync failed")
 
     def after(self, ev: Any, res: Any, exc: Any) -> None:
         if exc is not None:
@@ -153,10 +162,30 @@ def _history(name: str, root: str, lst: Listener) -> None:
 
     use_local()
     lst.op = "create"
-    t = create_table(root, schema())
+    try:
+        t = create_table(root, schema())
+    except Exception as e:  # noqa
+        if lst.fail_fsync is None:
+            raise
+        lst.ops_raised.append(f"create:{type(e).__name__}")
+        t = create_table(root, schema())  # the fault fires once: the retry goes through
     steps = HISTORIES[name]
     for st in steps:
         lst.op = st
+        try:
+            _step(st, t, root, lst)
+        except Exception as e:  # noqa - only the injected fsync failure may make an operation fail
+            if lst.fail_fsync is None:
+                raise
+            lst.ops_raised.append(f"{st}:{type(e).__name__}")
+        if st == "reopen":
+            from datashard import load_table
+
+            t = load_table(root)
+
+
+def _step(st: str, t: Any, root: str, lst: "Listener") -> None:
+    if True:
         if st == "append":
             n = ENV.next_id("row")
             t.append_records([row(n), row(100 + n)])
@@ -189,9 +218,7 @@ def _history(name: str, root: str, lst: Listener) -> None:
             ENV.advance(7200.0)
             t.garbage_collect(3600_000)
         elif st == "reopen":
-            from datashard import load_table
-
-            t = load_table(root)
+            pass
         else:
             raise ValueError(st)
 
@@ -204,18 +231,49 @@ HISTORIES: Dict[str, List[str]] = {
 }
 
 
-def run_history(payload: Tuple[str, str, int]) -> Dict[str, Any]:
-    name, tier, seed = payload
+def run_history(payload: Tuple[Any, ...]) -> Dict[str, Any]:
+    name, tier, seed = payload[:3]
+    fails = payload[3] if len(payload) > 3 else [None]
     install_local_seams()
     rep = Report("C16", tier, seed, "fault_enumeration")
+    for k in fails:
+        _run_one(rep, name, seed, k)
+    return rep.part()
+
+
+def count_fsyncs(name: str, seed: int) -> int:
+    install_local_seams()
+    rep = Report("C16", "quick", seed, "fault_enumeration")
+    return _run_one(rep, name, seed, None, judge=False)
+
+
+def _run_one(rep: Report, name: str, seed: int, fail_fsync: Any, judge: bool = True) -> int:
     ENV.reset(seed)
-    root = fresh_dir(f"c16-{name}")
-    lst = Listener(root, rep, name)
+    root = fresh_dir(f"c16-{name}-{fail_fsync}")
+    hname = name if fail_fsync is None else f"{name}/fsync#{fail_fsync}-fails"
+    lst = Listener(root, rep, hname)
+    lst.fail_fsync = fail_fsync
+    if not judge:
+        lst.evaluate = lambda ev: None  # type: ignore
     ENV.hooks.append(lst)
     try:
         _history(name, root, lst)
     finally:
         ENV.hooks.remove(lst)
+    import shutil
+
+    shutil.rmtree(root, ignore_errors=True)
+    if not judge:
+        return lst.n_fsync
+    if fail_fsync is not None:
+        rep.add("histories_with_a_failing_fsync")
+        if lst.fsync_failed_on is None:
+            rep.add("fsync_fault_positions_not_reached")
+        rep.add("operations_failed_by_the_injected_fsync_failure", len(lst.ops_raised))
+        rep.cov["max_pending_effects"] = max(rep.cov.get("max_pending_effects", 0), lst.max_pending)
+        rep.add("trace_prefixes", lst.prefixes)
+        rep.add("pointer_bearing_states", lst.pointer_states)
+        return lst.n_fsync
     rep.cov["max_pending_effects"] = lst.max_pending
     rep.add("trace_prefixes", lst.prefixes)
     rep.add("pointer_bearing_states", lst.pointer_states)
@@ -227,7 +285,7 @@ def run_history(payload: Tuple[str, str, int]) -> Dict[str, Any]:
             rep.cov["unsynced_new_directories_informational"].append(d)
     rep.sample({"history": name, "ops": ["create"] + HISTORIES[name],
                 "trace_excerpt": lst.trace[40:70]})
-    return rep.part()
+    return lst.n_fsync
 
 
 def run(tier: str, seed: int) -> Report:
@@ -235,7 +293,17 @@ def run(tier: str, seed: int) -> Report:
 
     rep = Report("C16", tier, seed, "fault_enumeration")
     names = ["h1", "h2"] if tier == "quick" else list(HISTORIES)
-    for part in pmap("checks.c16", "run_history", [(n, tier, seed) for n in names]):
+    payloads: List[Tuple[Any, ...]] = [(n, tier, seed) for n in names]
+    # fault variants: every single file-content fsync of the history fails once; the operation it hits
+    # may fail, but no surviving pointer may ever reference something that is not durable
+    for n in (names[:1] if tier == "quick" else names):
+        total = count_fsyncs(n, seed)
+        ks = list(range(1, total + 1))
+        step = max(1, len(ks) // 14)
+        for i in range(0, len(ks), step):
+            payloads.append((n, tier, seed, ks[i:i + step]))
+        rep.add("fsync_fault_positions", total)
+    for part in pmap("checks.c16", "run_history", payloads):
         rep.merge(part)
     rep.cov["evaluations"] = rep.cov.get("states", 0)
     rep.cov["exhaustive"] = not rep.caps
@@ -246,7 +314,9 @@ def run(tier: str, seed: int) -> Report:
         "POSIX-style durability: content durable at fsync(fd), directory entries at fsync(dirfd); rename atomic",
         "pyarrow's writer output is volatile until the library's own fsync of the temp file",
         "a file's own directory entry is judged; never-synced *ancestor* directories created by makedirs are listed, not judged",
-        "the swallowed directory-fsync failure branch is not exercised",
+        "fault variants: each single file-content fsync of a history fails once with EIO (the operation it hits may fail; no "
+        "surviving pointer may reference the unflushed file). Failing DIRECTORY fsyncs are not injected: the library documents "
+        "directory fsync as best effort because some platforms do not support it",
     ]
     return rep
 
